@@ -1,4 +1,4 @@
-\* leg A: 3 callers x 2 calls, 3 connection slots, queue limit x connection limit in {1,2}^2, one dial failure
+\* leg A: 3 callers x 2 calls, 3 connection slots, queue limit x connection limit in {1,2}^2, one fault (dial failure or death of an established connection)
 SPECIFICATION Spec
 CONSTANTS
   Callers = {0, 1, 2}
@@ -7,7 +7,8 @@ CONSTANTS
   CLimits = {1, 2}
   MaxCalls = 2
   MaxDialFail = 1
+  DEAD_ADMITS = FALSE
   DONE_EARLY = FALSE
   DOUBLE_COUNT = FALSE
-INVARIANTS ConnLimit ExactConn EarlyLimit NoSpuriousRefusal NoRefusalIfEqual QuietFree
+INVARIANTS ConnLimit ExactConn EarlyLimit NoSpuriousRefusal NoRefusalIfEqual QuietFree SingleFaultSurvives
 CHECK_DEADLOCK FALSE
